@@ -863,6 +863,11 @@ class CallMixin(object):
                         hit = fo.fold(lambda *ps: "".join(ps) in cont, list(k.args))
                         val = fo.fold(lambda *ps: cont.get("".join(ps), ERR), list(k.args))
                         return self.mk_ite(st, hit, val, d)
+                    if isinstance(k, App) and k.op == "ite":
+                        # the lookup distributes over a gated key
+                        a_ = self.call_method(st, recv, name, [k.args[1]] + list(args[1:]), kwargs, node, module)
+                        b_ = self.call_method(st, recv, name, [k.args[2]] + list(args[1:]), kwargs, node, module)
+                        return self.mk_ite(st, k.args[0], a_, b_)
                     raise AnalysisError("E5.call", "table.get with key %r" % (k,), node, module)
                 if name in ("keys", "values", "items"):
                     if not getattr(cont, "ordered", False):
@@ -1198,6 +1203,16 @@ class CallMixin(object):
                 n_ = lens.pop()
                 fo_ = st.folder()
                 return [(TRUE, fo_.fold(lambda s_, i=i: s_[i], [r])) for i in range(n_)]
+            # a table of tuples (the result of str.split on a table of strings) of varying length:
+            # element i exists on the rows whose tuple is longer than i
+            if all(isinstance(x, TTuple) for x in r.table.values()) and len(set(len(x) for x in r.table.values())) <= 4:
+                fo_ = st.folder()
+                out_ = []
+                for i in range(max(len(x) for x in r.table.values())):
+                    g_ = fo_.fold(lambda t_, i=i: len(t_) > i, [r])
+                    rows_ = dict((k_, x_[i]) for k_, x_ in r.table.items() if len(x_) > i)
+                    out_.append((g_, fo_.simplify(Fin(r.slots, rows_))))
+                return out_
         if isinstance(v, App) and v.op == "cat":
             from .interp_expr import piece_lengths
 
@@ -1280,6 +1295,25 @@ class StmtMixin(object):
                 o = st.heap[value.id]
                 if all(isinstance(g, Const) and truth_const(g.v) for g, _ in o.items):
                     value = TupleVal([v for _, v in o.items])
+                elif all(isinstance(g, (Const, Fin)) for g, _ in o.items):
+                    # elements present under table conditions: the unpack succeeds on the rows where
+                    # exactly as many elements are present as there are targets
+                    n = len(target.elts)
+                    fo = st.folder()
+                    gs = [g for g, _ in o.items]
+                    okc = fo.fold(lambda *bs: sum(1 for b in bs if truth_const(b)) == n and all(truth_const(b) for b in bs[:n]), gs) if fo.can_fold(gs) else None
+                    if okc is None:
+                        raise AnalysisError("E5.assign", "unpacking of conditionally present elements", node, module)
+                    d = self.decide(st, okc)
+                    if d is False:
+                        self.hazard(st, "ValueError", node, module, TRUE, "unpacking length mismatch")
+                        raise Dead()
+                    if d is None:
+                        self.hazard(st, "ValueError", node, module, mk_not(okc), "unpacking length mismatch for some inputs")
+                        self.assume(st, okc)
+                    value = TupleVal([self.simp(st, v) for _, v in o.items[:n]])
+                    if getattr(o, "one_shot", False):
+                        o.items = []
             if isinstance(value, Fin) and all(isinstance(x, (tuple, list)) for x in value.table.values()):
                 # a table of sequences: arity mismatch is a ValueError under its condition
                 fo = st.folder()
